@@ -492,6 +492,8 @@ def main(check: Check, argv=None) -> int:
         next_run = args.start
         end_run = args.start + total
         wave = max(cfg["batch"] * args.workers * 2, 1)
+        if args.budget and args.runs is None:
+            end_run = args.start  # budget mode: keep drawing new run indices until the budget is used
         while True:
             if next_run >= end_run:
                 if args.budget and time.monotonic() - t_start < args.budget:
